@@ -32,7 +32,11 @@
 //!   O<v>.<g>.<fetch>.<read> the same through 0 OnceResource, 1 ArcOnceResource, 2 Resource::new_blocking, 3 ArcResource,
 //!     4 OnceResource::new_blocking, 5 AsyncDerived, 6 ArcAsyncDerived, 7 LocalResource (never runs on the server) |
 //!   T<g>.<id> spawn_local_scoped task (awaits g, reports) | D<g>.<id> Action::new + dispatch (its future awaits g, reports) |
-//!   I<id> Effect::new_isomorphic reporting | A<g>.<id> RwSignal + StoredValue allocated in the current (child) owner and
+//!   I<id> Effect::new_isomorphic reporting | X<v>.<g>.<id> step of a user stream behind the app stream inside the body's
+//!   `Sandboxed` (reads/allocates arena items when g is fired; v=0 without an owner, v=1 under `Owner::with`) |
+//!   Y<v>.<g>.<id> the same body as a `reactive_graph::spawn` task | Z<kind*10+trigger>.<g1>.<t>.<g2>.<sync>.<async>.<after>.<read>
+//!   a Resource/ArcResource/AsyncDerived/ArcAsyncDerived whose fetcher RE-RUNS (source set in the same render, set after t,
+//!   refetch() after t), reporting in its sync part, async part and after its await | A<g>.<id> RwSignal + StoredValue allocated in the current (child) owner and
 //!   read after awaiting g (prints v<whose signal>/<whose stored value>) |
 //!   F<n>.<id> For over 0..n | Q(P,P,..) fragment
 //! Every leaf reports `(program's request, leaf id, Tag seen via use_context, per-request signal value,
@@ -91,6 +95,20 @@ enum P {
     I(u32),
     /// RwSignal + StoredValue allocated in the current (child) owner, read after awaiting the gate
     A(u32, u32),
+    /// (variant, gate, leaf): a step of a user stream chained behind the app stream INSIDE the response body's
+    /// `Sandboxed` (entry point `Stream::poll_next`): when the gate is fired it reads the per-request signal and the
+    /// item the previous step allocated, and allocates one; variant 0 = without entering an owner, 1 = under a child
+    /// owner of the root (`Owner::with`)
+    X(u32, u32, u32),
+    /// (variant, gate, leaf): the same body as a task given to `reactive_graph::spawn` (entry point
+    /// `Future::poll` of `Sandboxed`): allocates on its first poll, awaits the gate, reads
+    Y(u32, u32, u32),
+    /// (kind*10+trigger, g1, t, g2, sync leaf, async leaf, after-await leaf, read leaf): a resource whose fetcher
+    /// RE-RUNS: kind 0 Resource, 1 ArcResource (manual dependencies), 2 AsyncDerived, 3 ArcAsyncDerived (tracked);
+    /// trigger 0 = the source changes in the same synchronous render (before the task's first poll), 1 = a scoped
+    /// task sets the source after gate t, 2 = it calls `refetch()` (kinds 0/1) after gate t; run 1 awaits g1, the
+    /// re-run awaits g2; the fetcher reports in its sync part, in its async part and after its await
+    Z(u32, u32, u32, u32, u32, u32, u32, u32),
     F(u32, u32),
     Q(Vec<P>),
 }
@@ -193,6 +211,33 @@ impl<'a> Parser<'a> {
                     _ => P::A(g, a),
                 }
             }
+            b'X' | b'Y' => {
+                let v = self.num()?;
+                if v > 1 {
+                    return None;
+                }
+                self.eat(b'.')?;
+                let g = self.num()?;
+                self.eat(b'.')?;
+                let a = self.num()?;
+                if c == b'X' {
+                    P::X(v, g, a)
+                } else {
+                    P::Y(v, g, a)
+                }
+            }
+            b'Z' => {
+                let kv = self.num()?;
+                if kv / 10 > 3 || kv % 10 > 2 {
+                    return None;
+                }
+                let mut n = [0u32; 7];
+                for x in n.iter_mut() {
+                    self.eat(b'.')?;
+                    *x = self.num()?;
+                }
+                P::Z(kv, n[0], n[1], n[2], n[3], n[4], n[5], n[6])
+            }
             b'I' => P::I(self.num()?),
             b'F' => {
                 let n = self.num()?;
@@ -239,6 +284,9 @@ fn show_prog(p: &P) -> String {
         P::D(g, a) => format!("D{g}.{a}"),
         P::I(a) => format!("I{a}"),
         P::A(g, a) => format!("A{g}.{a}"),
+        P::X(v, g, a) => format!("X{v}.{g}.{a}"),
+        P::Y(v, g, a) => format!("Y{v}.{g}.{a}"),
+        P::Z(kv, g1, t, g2, a, b, c, d) => format!("Z{kv}.{g1}.{t}.{g2}.{a}.{b}.{c}.{d}"),
         P::F(n, a) => format!("F{n}.{a}"),
         P::Q(v) => format!("Q({})", v.iter().map(show_prog).collect::<Vec<_>>().join(",")),
     }
@@ -250,7 +298,10 @@ fn gates_of(p: &P, out: &mut Vec<u32>) {
             out.push(*g);
             gates_of(c, out)
         }
-        P::R(g, _, _) | P::O(_, g, _, _) | P::T(g, _) | P::D(g, _) | P::A(g, _) => out.push(*g),
+        P::R(g, _, _) | P::O(_, g, _, _) | P::T(g, _) | P::D(g, _) | P::A(g, _) | P::X(_, g, _) | P::Y(_, g, _) => {
+            out.push(*g)
+        }
+        P::Z(_, g1, t, g2, ..) => out.extend([*g1, *t, *g2]),
         P::V(_, c) | P::U(c) | P::W(_, c) => gates_of(c, out),
         P::Q(v) => v.iter().for_each(|c| gates_of(c, out)),
         _ => {}
@@ -284,6 +335,45 @@ struct Env {
     me: u32,
     sig: RwSignal<u32>,
     gates: Arc<Mutex<HashMap<u32, oneshot::Receiver<()>>>>,
+    /// steps of the user stream chained behind the app stream (`X` nodes register here)
+    tail: Arc<Mutex<std::collections::VecDeque<TailStep>>>,
+}
+
+struct TailStep {
+    variant: u32,
+    rx: Option<oneshot::Receiver<()>>,
+    leaf: u32,
+    owner: Option<Owner>,
+    env: Env,
+    /// allocated in the component body, under the owner that was current there
+    handle: StoredValue<u32>,
+}
+
+/// what `X`/`Y` bodies do with arena handles: read the per-request signal and an item allocated in the component
+/// body.  (They do not ALLOCATE without an owner: `ArenaItem::new` registers the item with `Owner::current()`, which
+/// for a body that is only inside `Sandboxed` is whatever owner the thread holds — by design of
+/// `reactive_graph::spawn`, see the report; with an owner entered they allocate and read back.)
+fn touch_arena(env: &Env, leaf: u32, h: StoredValue<u32>, alloc: bool) -> String {
+    let a = env.sig.try_get_untracked().map(|v| (v as i64 - 10).to_string()).unwrap_or("-".into());
+    let mut b = h.try_get_value().map(|v| (v as i64 - 300).to_string()).unwrap_or("-".into());
+    if alloc {
+        let fresh = StoredValue::new(300 + env.me);
+        if fresh.try_get_value() != Some(300 + env.me) {
+            b = "!".into();
+        }
+        fresh.dispose();
+    }
+    let seen = format!("v{a}/{b}");
+    LOG.lock().unwrap().push(Rec {
+        me: env.me,
+        leaf,
+        tag: None,
+        sig: None,
+        did: None,
+        cleanup: false,
+        arena_read: Some(seen.clone()),
+    });
+    seen
 }
 
 fn report(env: &Env, leaf: u32, take_id: bool) -> String {
@@ -507,6 +597,140 @@ fn build(p: &P, env: &Env) -> AnyView {
             })
             .into_any()
         }
+        P::X(v, g, id) => {
+            // registered while the component body runs; executed later by the user stream behind the app stream
+            let owner = if *v == 1 { Owner::current().map(|o| o.child()) } else { None };
+            env.tail.lock().unwrap().push_back(TailStep {
+                variant: *v,
+                rx: take_gate(env, *g),
+                leaf: *id,
+                owner,
+                env: env.clone(),
+                handle: StoredValue::new(300 + env.me),
+            });
+            ().into_any()
+        }
+        P::Y(v, g, id) => {
+            let (envt, v, g, id) = (env.clone(), *v, *g, *id);
+            let (dtx, drx) = oneshot::channel::<()>();
+            let owner = if v == 1 { Owner::current().map(|o| o.child()) } else { None };
+            // `reactive_graph::spawn`: the task is wrapped in `Sandboxed` (arena), not in a `ScopedFuture`
+            let h = StoredValue::new(300 + envt.me);
+            leptos::reactive::spawn(async move {
+                if let Some(rx) = take_gate(&envt, g) {
+                    let _ = rx.await;
+                }
+                match owner.as_ref() {
+                    Some(o) => o.with(|| touch_arena(&envt, id, h, true)),
+                    None => touch_arena(&envt, id, h, false),
+                };
+                let _ = dtx.send(());
+            });
+            Suspend::new(async move {
+                let _ = drx.await;
+                ""
+            })
+            .into_any()
+        }
+        P::Z(kv, g1, t, g2, ls, la, lb, lread) => {
+            let (kind, trig) = (kv / 10, kv % 10);
+            let (g1, t, g2, ls, la, lb, lread) = (*g1, *t, *g2, *ls, *la, *lb, *lread);
+            // Arc signal: still usable by the harness' own closures after the request was aborted
+            let src = ArcRwSignal::new(0u32);
+            let src2 = src.clone();
+            let runs = Arc::new(std::sync::atomic::AtomicUsize::new(0));
+            let (d2tx, d2rx) = oneshot::channel::<()>();
+            let d2tx = Arc::new(Mutex::new(Some(d2tx)));
+            let envf = env.clone();
+            // the fetcher: reports in its synchronous part, in its async part and after its await
+            let fetcher = move || {
+                let k = runs.fetch_add(1, std::sync::atomic::Ordering::SeqCst);
+                report(&envf, ls, true);
+                let (env, d2tx) = (envf.clone(), d2tx.clone());
+                async move {
+                    report(&env, la, true);
+                    if let Some(rx) = take_gate(&env, if k == 0 { g1 } else { g2 }) {
+                        let _ = rx.await;
+                    }
+                    let s = report(&env, lb, true);
+                    if k >= 1 {
+                        if let Some(tx) = d2tx.lock().unwrap().take() {
+                            let _ = tx.send(());
+                        }
+                    }
+                    s
+                }
+            };
+            let env = env.clone();
+            macro_rules! rerun_view {
+                ($res:expr, $retrigger:expr) => {{
+                    let res = $res;
+                    let retrigger = $retrigger;
+                    if trig == 0 {
+                        // the source changes later in the same synchronous render: before the task's first poll
+                        retrigger(res.clone());
+                    } else {
+                        let (envt, res2) = (env.clone(), res.clone());
+                        leptos::task::spawn_local_scoped(async move {
+                            if let Some(rx) = take_gate(&envt, t) {
+                                let _ = rx.await;
+                            }
+                            retrigger(res2);
+                        });
+                    }
+                    Suspend::new(async move {
+                        let v1 = res.clone().await;
+                        let s = report(&env, lread, true);
+                        let _ = d2rx.await;
+                        let v2 = res.await;
+                        view! { <i>{v1}{s}{v2}</i> }
+                    })
+                    .into_any()
+                }};
+            }
+            match kind {
+                0 => {
+                    let f = fetcher.clone();
+                    rerun_view!(Resource::new(move || src.get(), move |_| f()), move |r: Resource<String>| {
+                        if trig == 2 {
+                            r.refetch()
+                        } else {
+                            src2.set(1)
+                        }
+                    })
+                }
+                1 => {
+                    let f = fetcher.clone();
+                    rerun_view!(ArcResource::new(move || src.get(), move |_| f()), move |r: ArcResource<String>| {
+                        if trig == 2 {
+                            r.refetch()
+                        } else {
+                            src2.set(1)
+                        }
+                    })
+                }
+                2 => {
+                    let f = fetcher.clone();
+                    rerun_view!(
+                        AsyncDerived::new(move || {
+                            src.track();
+                            f()
+                        }),
+                        move |_r: AsyncDerived<String>| src2.set(1)
+                    )
+                }
+                _ => {
+                    let f = fetcher.clone();
+                    rerun_view!(
+                        ArcAsyncDerived::new(move || {
+                            src.track();
+                            f()
+                        }),
+                        move |_r: ArcAsyncDerived<String>| src2.set(1)
+                    )
+                }
+            }
+        }
         P::F(n, id) => {
             let (env, n, id) = (env.clone(), *n, *id);
             view! {
@@ -675,9 +899,11 @@ impl World {
             }
             let gates = Arc::new(Mutex::new(rxs));
             let prog = q.prog.clone();
+            let tail: Arc<Mutex<std::collections::VecDeque<TailStep>>> = Default::default();
+            let tail2 = tail.clone();
             let app_fn = move || {
                 let sig = RwSignal::new(10 + me);
-                let env = Env { me, sig, gates };
+                let env = Env { me, sig, gates, tail: tail2 };
                 build(&prog, &env)
             };
             let (owner, mut fut) = build_response(
@@ -699,7 +925,25 @@ impl World {
             // integrations/utils `ExtendResponse::from_app`, reproduced: the response body is the stream
             // followed by one element that drops the root owner, all inside `Sandboxed` (from_app itself
             // needs a ServerMetaContextOutput and awaits the first chunk; not linked here)
-            let body = stream.chain(futures::stream::once(async move {
+            // a user stream chained behind the app (`X` nodes): polled through the SAME `Sandboxed` wrapper's
+            // `poll_next`, by code that does not enter an owner by itself
+            let user_tail = futures::stream::poll_fn(move |cx| {
+                let mut steps = tail.lock().unwrap();
+                let Some(st) = steps.front_mut() else { return Poll::Ready(None) };
+                if let Some(rx) = st.rx.as_mut() {
+                    if Pin::new(rx).poll(cx).is_pending() {
+                        return Poll::Pending;
+                    }
+                }
+                let st = steps.pop_front().unwrap();
+                drop(steps);
+                let seen = match st.owner.as_ref() {
+                    Some(o) => o.with(|| touch_arena(&st.env, st.leaf, st.handle, true)),
+                    None => touch_arena(&st.env, st.leaf, st.handle, false),
+                };
+                Poll::Ready(Some(format!("[X{}:{seen}]", st.leaf)))
+            });
+            let body = stream.chain(user_tail).chain(futures::stream::once(async move {
                 owner.unset();
                 String::new()
             }));
@@ -997,6 +1241,15 @@ fn prog_tags(p: &P, under_async: bool, out: &mut BTreeSet<&'static str>) {
         P::A(..) => {
             out.insert("arena-alloc");
         }
+        P::X(..) => {
+            out.insert("sandboxed-stream-body");
+        }
+        P::Y(..) => {
+            out.insert("sandboxed-task-body");
+        }
+        P::Z(..) => {
+            out.insert("resource-rerun");
+        }
         P::F(..) => {
             out.insert("for");
         }
@@ -1010,7 +1263,9 @@ fn prog_tags(p: &P, under_async: bool, out: &mut BTreeSet<&'static str>) {
 fn exposed(p: &P, late: bool, covered: bool) -> bool {
     match p {
         P::L(_) | P::F(..) => late && !covered,
-        P::E(_) | P::C(_) | P::R(..) | P::O(..) | P::T(..) | P::D(..) | P::I(_) | P::A(..) => false,
+        P::E(_) | P::C(_) | P::R(..) | P::O(..) | P::T(..) | P::D(..) | P::I(_) | P::A(..) | P::X(..) | P::Y(..) | P::Z(..) => {
+            false
+        }
         P::V(_, c) | P::W(_, c) => exposed(c, late, true),
         P::U(_) => false,
         P::S(_, _, _, c) => exposed(c, true, false),
@@ -1022,8 +1277,8 @@ fn exposed(p: &P, late: bool, covered: bool) -> bool {
 /// Suspense: `OwnedView::to_html_async_with_buf` parks its owner in the AMBIENT owner's cleanups)
 fn late_kind(p: &P, late: bool, out: &mut BTreeSet<&'static str>) {
     match p {
-        P::L(_) | P::F(..) | P::E(_) | P::C(_) | P::I(_) => {}
-        P::R(..) | P::O(..) | P::T(..) | P::D(..) | P::A(..) => {
+        P::L(_) | P::F(..) | P::E(_) | P::C(_) | P::I(_) | P::X(..) => {}
+        P::R(..) | P::O(..) | P::T(..) | P::D(..) | P::A(..) | P::Y(..) | P::Z(..) => {
             if late {
                 out.insert("late-resource");
             }
@@ -1286,7 +1541,25 @@ impl G {
     }
     /// every API that stores or spawns a future for the request, as a leaf whose future reports AFTER an await
     fn async_leaf(&mut self, c: Gc, allow_u: bool) -> P {
-        match self.rng.below(12) {
+        match self.rng.below(18) {
+            // bodies behind the two `Sandboxed` entry points that touch arena handles, with/without an owner
+            12..=13 => P::X(self.rng.below(2) as u32, self.gate(), self.leaf()),
+            14 => P::Y(self.rng.below(2) as u32, self.gate(), self.leaf()),
+            // resources / async deriveds whose fetcher re-runs
+            15..=17 => {
+                let kind = self.rng.below(4) as u32;
+                let trig = if kind < 2 { self.rng.below(3) } else { self.rng.below(2) } as u32;
+                P::Z(
+                    kind * 10 + trig,
+                    self.gate(),
+                    self.gate(),
+                    self.gate(),
+                    self.leaf(),
+                    self.leaf(),
+                    self.leaf(),
+                    self.leaf(),
+                )
+            }
             0..=1 => P::R(self.gate(), self.leaf(), self.leaf()),
             2..=5 => P::O(self.rng.below(7) as u32, self.gate(), self.leaf(), self.leaf()),
             6 if allow_u => P::U(Box::new(P::O(7, self.gate(), self.leaf(), self.leaf()))),
@@ -1538,6 +1811,41 @@ fn gen_exhaustive(out: &mut String, tier: &str) -> usize {
                 out.push_str("end\n");
                 count += 1;
             }
+        }
+    }
+    // third family: two response bodies (and their tasks) polled ALTERNATELY on the thread, at every point of each
+    // other's progress: all 70 interleavings of [start r, ps r, fire r 1, ps r] for r = 0, 1; pages with bodies that
+    // touch arena handles behind `Sandboxed::poll_next` / `Sandboxed::poll` without entering an owner, and with
+    // resources whose fetcher re-runs while the other request's owner is the thread's current one
+    let pages = [
+        "Q(E1,X0.1.2,X0.2.3)",
+        "Q(U(Y0.1.2),X1.2.3,X0.3.4)",
+        "U(Z0.2.3.1.4.5.6.7)",
+        "Q(U(Z11.1.2.3.4.5.6.7),X0.2.8)",
+        "U(Z20.2.3.1.4.5.6.7)",
+    ];
+    let n_pages = if tier == "thorough" { pages.len() } else { 4 };
+    for (t, page) in pages.iter().take(n_pages).enumerate() {
+        for mask in 0u32..256 {
+            if mask.count_ones() != 4 {
+                continue;
+            }
+            let seq = |r: usize| [format!("start {r}"), format!("ps {r}"), format!("fire {r} 1"), format!("ps {r}")];
+            let (a, b) = (seq(0), seq(1));
+            let (mut ia, mut ib) = (0, 0);
+            out.push_str(&format!("case z{t}-{count}\nreq 0 io {page}\nreq 1 {} {page}\n", if mask % 2 == 0 { "io" } else { "ooo" }));
+            for slot in 0..8 {
+                if mask >> slot & 1 == 1 {
+                    out.push_str(&a[ia]);
+                    ia += 1;
+                } else {
+                    out.push_str(&b[ib]);
+                    ib += 1;
+                }
+                out.push('\n');
+            }
+            out.push_str("end\n");
+            count += 1;
         }
     }
     count
